@@ -323,3 +323,70 @@ func c19LegacyItems(r *zzverif.Rng, depth int, allowElseResponse bool) string {
 func c19GenLegacyTemplate(r *zzverif.Rng) string {
 	return c19LegacyItems(r, 2, r.Chance(1, 12))
 }
+
+// ---------------------------------------------------------------- Tie 1: the harness templates' trees as Lean terms
+
+func c19LeanBytes(b []byte) string {
+	parts := make([]string, len(b))
+	for i, x := range b {
+		parts[i] = fmt.Sprint(x)
+	}
+	return "[" + strings.Join(parts, ", ") + "]"
+}
+
+func c19LeanFld(name string) string {
+	switch name {
+	case "System", "Prompt", "Response", "Messages", "Role", "Content":
+		return "." + strings.ToLower(name)
+	}
+	return ".other"
+}
+
+func c19LeanArg(n parse.Node) string {
+	switch x := n.(type) {
+	case *parse.FieldNode:
+		return ".field " + c19LeanFld(x.Ident[0])
+	case *parse.VariableNode:
+		return ".root " + c19LeanFld(x.Ident[1])
+	case *parse.StringNode:
+		return ".str " + c19LeanBytes([]byte(x.Text))
+	case *parse.PipeNode:
+		return c19LeanPipe(x)
+	}
+	c19Bail("argument %T", n)
+	return ""
+}
+
+func c19LeanPipe(p *parse.PipeNode) string {
+	args := p.Cmds[0].Args
+	if id, ok := args[0].(*parse.IdentifierNode); ok {
+		s := "." + id.Ident
+		for _, a := range args[1:] {
+			s += " (" + c19LeanArg(a) + ")"
+		}
+		return s
+	}
+	return c19LeanArg(args[0])
+}
+
+func c19LeanList(l *parse.ListNode) string {
+	if l == nil {
+		return "[]"
+	}
+	parts := make([]string, len(l.Nodes))
+	for i, n := range l.Nodes {
+		switch x := n.(type) {
+		case *parse.TextNode:
+			parts[i] = ".text " + c19LeanBytes(x.Text)
+		case *parse.ActionNode:
+			parts[i] = ".action (" + c19LeanPipe(x.Pipe) + ")"
+		case *parse.IfNode:
+			parts[i] = fmt.Sprintf(".ite (%s) %s %v %s", c19LeanPipe(x.Pipe), c19LeanList(x.List), x.ElseList != nil, c19LeanList(x.ElseList))
+		case *parse.RangeNode:
+			parts[i] = fmt.Sprintf(".range (%s) %s %v %s", c19LeanPipe(x.Pipe), c19LeanList(x.List), x.ElseList != nil, c19LeanList(x.ElseList))
+		default:
+			c19Bail("node %T", n)
+		}
+	}
+	return "[" + strings.Join(parts, ", ") + "]"
+}
